@@ -191,6 +191,19 @@ Theorem clause_rejected_sound : forall c cls crt std,
   (forall g, build c = Ok g -> cls = 0).
 Proof. exact rejected_ok_sound. Qed.
 
+(* Link back to the model: the observed-case record built from the MODEL's own run (model_obs: the way the harness
+   builds it from the implementation's run, for every creation order [ord]) passes the clause checkers, for EVERY
+   configuration — no well-formedness guard is needed.  So the checker never demands more than the model (whose
+   clauses are the theorems above) delivers: a checker verdict "violated" on an observed case is a difference from the
+   model's behaviour, never a false alarm against it. *)
+Theorem model_passes_checker : forall c ord, prop_ok (w_of_cfg c, model_obs ord c) = true.
+Proof. exact model_passes_checker_cfg_l. Qed.
+
+Theorem model_passes_checker_wire : forall wc ord, prop_ok (wc, model_obs ord (cfg_of_w wc)) = true.
+Proof. exact model_passes_checker_l. Qed.
+
+Print Assumptions model_passes_checker.
+Print Assumptions model_passes_checker_wire.
 Print Assumptions clause_routing_sound.
 Print Assumptions clause_instances_sound.
 Print Assumptions clause_rejected_sound.
